@@ -402,9 +402,10 @@ def merge_results(fam, parts):
 
 
 def cached_pipeline(fam, progs, tier, cap, do_mc, sample=None, pb=None, clock=False):
-    if len(progs) > CHUNK:
-        parts = [cached_pipeline(fam, progs[i:i + CHUNK], tier, cap, do_mc, sample=sample, pb=pb, clock=clock)
-                 for i in range(0, len(progs), CHUNK)]
+    chunk = CHUNK if tier == "quick" else CHUNK // 2
+    if len(progs) > chunk:
+        parts = [cached_pipeline(fam, progs[i:i + chunk], tier, cap, do_mc, sample=sample, pb=pb, clock=clock)
+                 for i in range(0, len(progs), chunk)]
         return merge_results(fam, parts)
     return cached_pipeline1(fam, progs, tier, cap, do_mc, sample=sample, pb=pb, clock=clock)
 
@@ -1101,7 +1102,7 @@ def run_property(pid, tier):
     vlib.build_harness()
     spec = SHUTTLE_PROPS[pid]
     known = vlib.load_known()
-    cap = 4000 if tier == "quick" else 200000
+    cap = 4000 if tier == "quick" else 20000
     totals = {}
     problems = []
     samples = []
@@ -1113,9 +1114,9 @@ def run_property(pid, tier):
             return None
         smp = st["sample"][0 if tier == "quick" else 1] if st.get("sample") else None
         pbv = st.get("pb_quick", st.get("pb")) if tier == "quick" else st.get("pb")
-        pcap = cap if pbv is None else (25000 if tier == "quick" else 400000)
+        pcap = cap if pbv is None else (25000 if tier == "quick" else 60000)
         if st.get("clock"):
-            pcap = 1500 if tier == "quick" else 100000
+            pcap = 1500 if tier == "quick" else 8000
         return progs, cached_pipeline(st["fam"], progs, tier, pcap, st["mc"], sample=smp, pb=pbv, clock=bool(st.get("clock")))
 
     # stages are independent (own output directory each): run a few side by side, report in table order
